@@ -519,7 +519,8 @@ func runC25(c *core.Ctx) {
 				// a module saver's Commit returning a non-nil error makes tree.Commit →
 				// State.Commit → Blockchain.Commit panic (the process does not continue), so a
 				// lock still held on that return cannot block anything
-				if fn.Name() == "Commit" && len(r.Results) == 1 {
+				// (the same holds for a helper that only Commit calls and whose error Commit returns)
+				if (fn.Name() == "Commit" || c.GroupRoot(fn).Name() == "Commit") && len(r.Results) == 1 && isErrorType(r.Results[0].Type()) {
 					if _, isConst := core.Unwrap(r.Results[0]).(*ssa.Const); !isConst {
 						continue // `return fmt.Errorf(…)`: the error path
 					}
